@@ -195,6 +195,16 @@ Section DriverExtProofs.
     symmetry. apply Permutation_length. apply stable_sort_perm.
   Qed.
 
+  (* ... and it IS sorted by name (bsonkit.Sort on "name": stable, by the BSON
+     order of the names) *)
+  Theorem filter_sorted_sorted l q res :
+    no_error (fun d => matchf d q) l -> filter_sorted matchf l q = inl res ->
+    sorted by_name res.
+  Proof.
+    intros NE H. rewrite (filter_sorted_ok l q NE) in H. inversion H; subst.
+    apply (stable_sort_sorted by_name (order_total [("name"%string, false)])).
+  Qed.
+
   (* ListCollections: exactly the specifications of the namespaces of `db` in
      the catalog that the filter accepts *)
   Theorem list_collections_spec c db q res :
